@@ -1819,6 +1819,10 @@ def make_builtins(interp):
             raise RaiseEx(e)
 
     def b_str(it, v=''):
+        if isinstance(v, I.Obj):
+            c, mem = it.find_member(v.cls, '__str__')        # a __str__ defined in interpreted (repository / harness) source runs from that source
+            if mem is not None:
+                return it.call(it.bind_member(v, c, mem, '__str__'), [], {})
         return it.format_value(v, -1, '')
 
     def b_id(it, o):
